@@ -105,7 +105,12 @@ def harness_build(profile="tie", serde=True, target_dir=None):
     td = target_dir or os.path.join(hd, "target")
     env = {"RUSTFLAGS": RUSTFLAGS, "CARGO_NET_OFFLINE": "true", "CARGO_TARGET_DIR": td}
     with Lock(".lock-cargo-" + hashlib.md5(td.encode()).hexdigest()[:8]):
-        rc, out, err = sh(cmd, cwd=hd, env=env, timeout=3600)
+        for attempt in range(3):
+            rc, out, err = sh(cmd, cwd=hd, env=env, timeout=3600)
+            if rc == 0:
+                break
+            # build scripts of dependencies occasionally fail spuriously when several cargo builds run at once
+            time.sleep(2 + attempt)
     pdir = "debug" if profile == "dev" else profile
     return rc == 0, out + err, os.path.join(td, pdir, "rngs_harness")
 
